@@ -90,6 +90,58 @@ def _h_multi(ctx, n, n_nan, ypat, labels, params, with_dev):
     return dict(counters={"ok": 1}, sample=dict(ypat=ypat, labels=labels, cols=list(out.columns)), result=dict(cols=sorted(out.columns)))
 
 
+def h_multi_ord(ctx, sizes, params):
+    """Ordinal and categorical features through MulticlassCarver: per level the numbers of rows of class 1
+    and of class 2 are solver-chosen (the rest is class 0), so that a feature can be dropped for one class
+    and kept for another."""
+    from AutoCarver import BinaryCarver, MulticlassCarver
+
+    levels = ["L", "M", "H", "X"][: len(sizes)]  # ranking L < M < H < X (not alphabetical)
+    col, ycol = [], []
+    for lv, sz in zip(levels, sizes):
+        c1 = ctx.choose(f"c1_{lv}", sz + 1)
+        c2 = ctx.choose(f"c2_{lv}", sz - c1 + 1)
+        col += [lv] * sz
+        ycol += [1] * c1 + [2] * c2 + [0] * (sz - c1 - c2)
+    if len(set(ycol)) < 3:
+        from symx import Infeasible
+        raise Infeasible()
+    X = pd.DataFrame({"o": pd.Series(col, dtype=object), "q": pd.Series(col, dtype=object)})
+    y = pd.Series(ycol)
+    ranking = list(levels)
+    user_ordinal = ["o"]
+    kw = dict(ordinal_features=user_ordinal, values_orders={"o": list(ranking)}, qualitative_features=["q"], copy=True, **params)
+    mc = MulticlassCarver(**kw)
+    try:
+        mc.fit(X, y)
+    except AssertionError as e:
+        return dict(counters={"assertion": 1}, sample=dict(y=ycol, outcome="AssertionError"), result=dict(outcome="AssertionError"))
+    except Violation:
+        raise
+    except Exception as e:
+        ctx.require(False, "C08.internal-error", f"MulticlassCarver.fit raised {type(e).__name__}: {str(e)[:150]} (y={ycol})")
+    ctx.require(user_ordinal == ["o"], "C07.input-mutated", f"the caller's ordinal_features list was modified: {user_ordinal}")
+    out = mc.transform(X)
+    exp_cols = ["o", "q"]
+    for ci in ("1", "2"):
+        yi = (y.astype(str) == ci).astype(int)
+        bc = BinaryCarver(ordinal_features=["o"], values_orders={"o": list(ranking)}, qualitative_features=["q"], copy=True, **params)
+        bc.fit(X, yi)
+        outb = bc.transform(X)
+        for ft in ("o", "q"):
+            name = f"{ft}_{ci}"
+            if ft in bc.features:
+                exp_cols.append(name)
+                ctx.require(name in out.columns, "C12.columns", f"column {name} missing although BinaryCarver keeps {ft} for class {ci} (columns {sorted(out.columns)})")
+                ctx.require(list(out[name]) == list(outb[ft]), "C12.differs-from-binary-carver",
+                            f"column {name} = {list(out[name])} but BinaryCarver(same parameters) on 1[y={ci}] gives {list(outb[ft])} (levels {col}, y={ycol})")
+                ctx.require(dict(mc.values_orders[name].content) == dict(bc.values_orders[ft].content), "C12.differs-from-binary-carver",
+                            f"{name}: groups {dict(mc.values_orders[name].content)} differ from the BinaryCarver's {dict(bc.values_orders[ft].content)}")
+    ctx.require(sorted(out.columns) == sorted(exp_cols), "C12.columns", f"output columns {sorted(out.columns)} != expected {sorted(exp_cols)}")
+    ctx.require(list(out["o"]) == col and list(out["q"]) == col, "C12.raw-column-changed", "raw feature columns not returned unchanged")
+    return dict(counters={"ok": 1}, sample=dict(y=ycol, cols=sorted(out.columns)), result=dict(cols=sorted(out.columns)))
+
+
 def casted_name_api_witness():
     """API-level confirmation of the naming collision found by CrossHair: raw features 'a' and 'a_1',
     classes 0/1/2: the generated column 'a_1' (feature a, class 1) overwrites the raw column 'a_1'."""
@@ -175,7 +227,13 @@ def obligations(tier):
                 for labels, with_dev in (("int", False), ("str", True), ("int_strsort", False)) if quick else itertools.product(CLASS_LABELS, (False, True)):
                     for ypat in pats:
                         jobs.append(dict(n=n, n_nan=n_nan, ypat=ypat, labels=labels, params=params, with_dev=with_dev))
+    ord_jobs = [dict(sizes=sz, params=dict(min_freq=0.2, sort_by="cramerv", max_n_mod=3, output_dtype="str", dropna=True)) for sz in ([(3, 3, 3)] if quick else [(3, 3, 3), (2, 3, 2, 2)])]
     return [
+        Obligation(
+            name="O12.3 ordinal and categorical features: every o_ci / q_ci column and grouping equals the BinaryCarver's on 1[y=ci] (solver-chosen class counts per level: features dropped for one class and kept for another)",
+            harness=h_multi_ord, jobs=ord_jobs, encodes=["MulticlassCarver.fit", "BaseCarver.__init__/_remove_feature", "QualitativeDiscretizer.fit", "OrdinalDiscretizer.fit", "CategoricalDiscretizer.fit"],
+            bounds="one ordinal (non-alphabetical ranking) and one categorical feature with 3-4 levels of 2-3 rows; numbers of class-1 and class-2 rows per level solver-chosen", twin_every=7, budget_s=6.0,
+        ),
         Obligation(
             name="O12.1 every f_ci column equals BinaryCarver(same parameters) on 1[y=ci]; kept iff that carver keeps f; classes in string-sorted order, first skipped; raw column unchanged",
             harness=h_multi, jobs=jobs, encodes=k_api.ENC_COMMON + k_api.ENC_CARVER + ["MulticlassCarver._prepare_data/fit", "multiclass_carver.append_class/dict_append_class", "BaseDiscretizer._cast_features"],
